@@ -147,8 +147,9 @@ class Latency:
         """
         if self._ping_thread_instance is None or not self._ping_thread_instance.is_alive():
             self._stop_event.clear()
-            self._ping_thread_instance = Thread(target=self._ping_thread)
-            self._ping_thread_instance.start()
+            ping_thread = Thread(target=self._ping_thread)
+            ping_thread.start()
+            self._ping_thread_instance = ping_thread
 
     def stop(self):
         """
